@@ -7,7 +7,7 @@ PID = "C05"
 MANIFEST = {
     "text": "Theorems over the transcribed evaluator, for every form, environment, module, state and depth: what an evaluation ends in (value, signal or abort) is the same for every sufficient amount of the model's fuel (mutual induction over the six evaluator functions; so the exists-fuel statements about programs are not a choice among behaviours); a closure call evaluates the operator first, then the operands strictly left to right (each once, in the state left by the previous one, stopping at the first non-value), then the body in the closure's CAPTURED environment extended with the parameters (the caller's environment does not occur), in tail position; a non-function operator is reported before any operand is evaluated; parameter/argument pairing is exact for lists of ANY length (too few / too many / rest parameter) with the error details the code produces; the innermost binding shadows outer ones and globals. The model itself is the reference evaluator: it is tied to src/native/eval/mod.rs by generated programs (nested closures, shadowing, higher-order calls, rest parameters, arity and type errors in every operand position, side-effecting operands) run on the binary and in the model, compared on value/signal with full structure, output and the number of evaluator steps.",
     "note": "Trusted: Coq kernel; the hand transcription of eval_internal / pair_params_and_args / lookup (bound by the correspondence); the primitives' argument signatures are generated from the source. An adequacy theorem against a separately written big-step reference semantics is not proved; the one-step rules above characterise the transcription as that semantics construct by construct.",
-    "technique": "Coq rules derived from the transcribed evaluator + induction on parameter lists + differential check of generated programs (values, signals, output, step counts)",
+    "technique": "Coq rules derived from the transcribed evaluator + induction on parameter lists + fuel-irrelevance by mutual induction over the evaluator + differential check of generated programs (values, signals, output, step counts) + exhaustive arity matrix",
 }
 TARGETS = ["Properties/C05.v", "Eval/PreludeState.v"]
 IMPORTS = ["Eval.EvalRules", "Eval.SemProofs", "Eval.ModulesPersist", "Eval.FuelMono", "Properties.C05"]
